@@ -126,7 +126,7 @@ func spellings(a atom) []string {
 }
 
 func checkC16(w *World, r *Report) {
-	r.Explanation = "Structural clause of C16: (F-1) commonValidation0 rejects a gas price different from the governance gas price (equality, both directions) and a fee gas x price below the governance minimum fee, the contract validation rejects gas below the intrinsic gas of the payload, each guard lying on every path to a success return, and the governance handler of every context is the node's governance controller; (F-2) the routing decision table (C04 N-3) shows every natively executed transaction is debited exactly gas-limit x price once and reports GasUsed = gas limit; (F-3) on the EVM route the transaction's gas limit and the governance gas price reach the EVM message unchanged and GasUsed is the execution result's UsedGas; (F-4) deliverTxSync adds GasToFee(GasUsed, governance price) to the block's fee sum only on the success branch, the fee sum starts at zero in a context created afresh in BeginBlock, has a closed set of writers, and AcctCtrler.EndBlock credits exactly SumFee() to the header's proposer address in the consensus overlay. (F-5) the fee of a contract transaction is credited to the proposer once, by EndBlock: the EVM itself pays nothing to the coinbase — every EVM is created with NoBaseFee and every message carries fee cap = tip cap = 0 (constants), the combination under which go-ethereum's state transition skips the coinbase payment."
+	r.Explanation = "Structural clause of C16: (F-1) commonValidation0 rejects a gas price different from the governance gas price (equality, both directions) and a fee gas x price below the governance minimum fee, the contract validation rejects gas below the intrinsic gas of the payload, each guard lying on every path to a success return, and the governance handler of every context is the node's governance controller; (F-2) the routing decision table (C04 N-3) shows every natively executed transaction is debited exactly gas-limit x price once and reports GasUsed = gas limit; (F-3) on the EVM route the transaction's gas limit and the governance gas price reach the EVM message unchanged and GasUsed is the execution result's UsedGas; (F-4) deliverTxSync adds GasToFee(GasUsed, governance price) to the block's fee sum only on the success branch, the fee sum starts at zero in a context created afresh in BeginBlock, has a closed set of writers, and AcctCtrler.EndBlock credits exactly SumFee() to the header's proposer address in the consensus overlay. (F-5) the fee of a contract transaction is credited to the proposer once, by EndBlock: the EVM itself pays nothing to the coinbase — every EVM is created with NoBaseFee and every message carries fee cap = tip cap = 0 (constants), the combination under which go-ethereum's state transition skips the coinbase payment. (F-6) what the EVM charges is charged to the account of the executing block: the wrapper synchronises balances in and out through the exec-selected overlay, the flag being set before the first address is synchronised (C17 E-1, E-2)."
 	r.NotCovered = "UsedGas <= gas limit and gas purchase/refund inside go-ethereum; sums over a block as numbers; blocks without a proposer address."
 	f1(w, r)
 	routingTable(w, r, "F-2")
@@ -134,6 +134,12 @@ func checkC16(w *World, r *Report) {
 	f4(w, r)
 	f5(w, r)
 	r.Floor("F-5", 3, "the EVM pays no fee to the coinbase")
+	// F-6: the gas the EVM charges is charged to the sender's account of the executing
+	// block: sync-in / write-back of the wrapper use the exec-selected overlay, set before
+	// the first address is synchronised (C17 E-1, E-2)
+	if r.importRules(w, func(t *Report) { e1(w, t); e2(w, t) }, "F-6", "E-1", "E-2") < 8 {
+		r.Undecided("F-6", "evm-bridge", "the EVM/native-ledger synchronisation rules (C17 E-1, E-2) matched fewer than 8 constructs")
+	}
 	r.Floor("F-1", 6, "admission guards")
 	r.Floor("F-2", 18, "decision table rows")
 	r.Floor("F-3", 4, "EVM charge")
